@@ -297,3 +297,258 @@ def string_add(ctx, args, st):
     a, b = str_of(st, args[0]), str_of(st, args[1])
     if a.facts is not None or b.facts is not None: raise Unsupported('concatenation of abstract strings')
     return ret(st, StrV(a.chars + b.chars, 'String'))
+
+
+# ============================================================================ character classes and string algorithms on symbolic code points
+WS_RANGES = [(0x09, 0x0D), (0x20, 0x20), (0x85, 0x85), (0xA0, 0xA0), (0x1680, 0x1680), (0x2000, 0x200A), (0x2028, 0x2029), (0x202F, 0x202F), (0x205F, 0x205F), (0x3000, 0x3000)]
+
+
+def is_whitespace_expr(c):
+    """char::is_whitespace (Unicode White_Space) as a z3 Bool / python bool"""
+    if isinstance(c, int): return any(lo <= c <= hi for lo, hi in WS_RANGES)
+    return z3.Or(*[(z3.And(z3.UGE(c, lo), z3.ULE(c, hi)) if lo != hi else c == lo) for lo, hi in WS_RANGES])
+
+
+UPPER = z3.Function('char_to_upper_nonascii', z3.BitVecSort(32), z3.BitVecSort(32))
+LOWER = z3.Function('char_to_lower_nonascii', z3.BitVecSort(32), z3.BitVecSort(32))
+
+
+def upper_expr(c):
+    if isinstance(c, int):
+        if c < 128: return ord(chr(c).upper())
+        u = chr(c).upper()
+        return ord(u) if len(u) == 1 else UPPER(z3.BitVecVal(c, 32))
+    return z3.If(z3.And(z3.UGE(c, 97), z3.ULE(c, 122)), c - 32, z3.If(z3.ULT(c, 128), c, UPPER(c)))
+
+
+def lower_expr(c):
+    if isinstance(c, int):
+        if c < 128: return ord(chr(c).lower())
+        u = chr(c).lower()
+        return ord(u) if len(u) == 1 else LOWER(z3.BitVecVal(c, 32))
+    return z3.If(z3.And(z3.UGE(c, 65), z3.ULE(c, 90)), c + 32, z3.If(z3.ULT(c, 128), c, LOWER(c)))
+
+
+def _fork_pred(ex, st, p):
+    if isinstance(p, bool):
+        yield st, p
+    else:
+        yield from ex.fork_bool(st, p)
+
+
+@model(r'^(?:core::)?str::<impl str>::(trim|trim_start|trim_end|trim_left|trim_right)$')
+def str_trim(ctx, args, st):
+    s = str_of(st, args[0])
+    if s.facts is not None: raise Unsupported('trim of an abstract string')
+    op = ctx.callee.rsplit('::', 1)[-1]
+    left = op in ('trim', 'trim_start', 'trim_left'); right = op in ('trim', 'trim_end', 'trim_right')
+    def strip_left(s_, chars):
+        if not left or not chars:
+            yield s_, chars; return
+        for s2, w in _fork_pred(ctx.ex, s_, is_whitespace_expr(chars[0])):
+            if w: yield from strip_left(s2, chars[1:])
+            else: yield s2, chars
+    def strip_right(s_, chars):
+        if not right or not chars:
+            yield s_, chars; return
+        for s2, w in _fork_pred(ctx.ex, s_, is_whitespace_expr(chars[-1])):
+            if w: yield from strip_right(s2, chars[:-1])
+            else: yield s2, chars
+    def g():
+        for s1, c1 in strip_left(st, tuple(s.chars)):
+            for s2, c2 in strip_right(s1, c1):
+                yield s2, 'ret', s2.ref(StrV(c2, 'str'))
+    return g()
+
+
+@model(r'^(?:alloc::)?str::<impl str>::(to_uppercase|to_lowercase|to_ascii_uppercase|to_ascii_lowercase)$')
+def str_case(ctx, args, st):
+    s = str_of(st, args[0])
+    if s.facts is not None: raise Unsupported('case mapping of an abstract string')
+    up = 'upper' in ctx.callee
+    f = upper_expr if up else lower_expr
+    out = []
+    for c in s.chars:
+        x = f(c)
+        out.append(x if isinstance(x, int) else z3.simplify(x))
+    return ret(st, StrV(out, 'String'))
+
+
+@model(r'^(?:core::)?char::methods::<impl char>::(to_uppercase|to_lowercase)$')
+def char_case(ctx, args, st):
+    from .iters import mk_list_iter
+    c = args[0]
+    cv = c.concrete() if c.concrete() is not None else c.e
+    x = (upper_expr if 'upper' in ctx.callee else lower_expr)(cv)
+    return ret(st, mk_list_iter([Char(x if isinstance(x, int) else z3.simplify(x))]))
+
+
+@model(r'^(?:core::)?char::methods::<impl char>::(is_whitespace|is_ascii_digit|is_alphanumeric|is_ascii)$')
+def char_pred(ctx, args, st):
+    c = args[0]; cv = c.concrete() if c.concrete() is not None else c.e
+    op = ctx.callee.rsplit('::', 1)[-1]
+    if op == 'is_whitespace':
+        r = is_whitespace_expr(cv)
+    elif op == 'is_ascii_digit':
+        r = (48 <= cv <= 57) if isinstance(cv, int) else z3.And(z3.UGE(cv, 48), z3.ULE(cv, 57))
+    elif op == 'is_ascii':
+        r = (cv < 128) if isinstance(cv, int) else z3.ULT(cv, 128)
+    else:
+        raise Unsupported(op)
+    return ret(st, Bool(r))
+
+
+def _match_at(ex, st, hay, i, pat):
+    """generator (st, bool): pat occurs in hay at char position i"""
+    if i + len(pat) > len(hay):
+        yield st, False; return
+    conds = []
+    for k, pc in enumerate(pat):
+        hc = hay[i + k]
+        if isinstance(hc, int) and isinstance(pc, int):
+            if hc != pc:
+                yield st, False; return
+        else:
+            conds.append(ch_expr(hc) == ch_expr(pc))
+    if not conds:
+        yield st, True; return
+    yield from ex.fork_bool(st, z3.And(*conds))
+
+
+def split_positions(ex, st, hay, pat, limit=None):
+    """generator (st, [pieces as char tuples]) with std's str::split / splitn semantics (leftmost non-overlapping matches;
+    an empty pattern matches at every char boundary incl. both ends)"""
+    hay = tuple(hay); pat = tuple(pat)
+    def go(s, start, i, pieces):
+        if limit is not None and len(pieces) == limit - 1:
+            yield s, pieces + [hay[start:]]; return
+        if not pat:
+            # empty pattern: boundaries 0,1,..,n
+            if i > len(hay):
+                yield s, pieces + [hay[start:]]; return
+            yield from go(s, i, i + 1, pieces + [hay[start:i]]) if i <= len(hay) else iter(())
+            return
+        if i + len(pat) > len(hay):
+            yield s, pieces + [hay[start:]]; return
+        for s2, hit in _match_at(ex, s, hay, i, pat):
+            if hit: yield from go(s2, i + len(pat), i + len(pat), pieces + [hay[start:i]])
+            else: yield from go(s2, start, i + 1, pieces)
+    if not pat:
+        # std: "".split("") yields ["", ""]; "ab".split("") yields ["", "a", "b", ""]
+        pieces = [()] + [(c,) for c in hay] + [()]
+        if limit is not None and len(pieces) > limit:
+            head = pieces[:limit - 1]
+            consumed = sum(len(p) for p in head)
+            pieces = head + [hay[consumed:]]
+        yield st, pieces; return
+    yield from go(st, 0, 0, [])
+
+
+@model(r'^(?:alloc::)?str::<impl str>::replace::<&str>$|^(?:alloc::)?str::<impl str>::replacen::<&str>$')
+def str_replace(ctx, args, st):
+    s, pat, to = str_of(st, args[0]), str_of(st, args[1]), str_of(st, args[2])
+    if any(x.facts is not None for x in (s, pat, to)): raise Unsupported('replace on abstract strings')
+    limit = None
+    if 'replacen' in ctx.callee:
+        n = args[3].concrete()
+        if n is None: raise Unsupported('replacen with symbolic count')
+        limit = n + 1
+    def g():
+        for s2, pieces in split_positions(ctx.ex, st, s.chars, pat.chars, limit):
+            out = []
+            for k, p in enumerate(pieces):
+                if k: out += list(to.chars)
+                out += list(p)
+            yield s2, 'ret', StrV(out, 'String')
+    return g()
+
+
+@model(r'^(?:core::)?str::<impl str>::(split|splitn)::<&str>$')
+def str_split(ctx, args, st):
+    from .iters import mk_list_iter
+    if 'splitn' in ctx.callee:
+        s, n, pat = str_of(st, args[0]), args[1].concrete(), str_of(st, args[2])
+        if n is None: raise Unsupported('splitn with symbolic count')
+        if n == 0:
+            return ret(st, mk_list_iter([]))
+    else:
+        s, pat, n = str_of(st, args[0]), str_of(st, args[1]), None
+    if s.facts is not None or pat.facts is not None: raise Unsupported('split on abstract strings')
+    def g():
+        for s2, pieces in split_positions(ctx.ex, st, s.chars, pat.chars, n):
+            yield s2, 'ret', mk_list_iter([s2.ref(StrV(p, 'str')) for p in pieces])
+    return g()
+
+
+@model(r'^(?:core::)?str::<impl str>::contains::<&str>$')
+def str_contains(ctx, args, st):
+    s, pat = str_of(st, args[0]), str_of(st, args[1])
+    if s.facts is not None or pat.facts is not None: raise Unsupported('contains on abstract strings')
+    def g():
+        for s2, pieces in split_positions(ctx.ex, st, s.chars, pat.chars, 2):
+            yield s2, 'ret', Bool(len(pieces) == 2)
+    return g()
+
+
+@model(r'^<String as FromIterator<.*>>::from_iter')
+def string_from_iter(ctx, args, st):
+    return None
+
+
+@model(r'^(?:core::)?str::<impl str>::(trim_end_matches|trim_right_matches|trim_matches)::<char>$')
+def str_trim_matches_char(ctx, args, st):
+    s = str_of(st, args[0]); c = _char_arg(args[1])
+    both = ctx.callee.rsplit('::<', 1)[0].endswith('trim_matches')
+    def last_is(s_, cur):
+        if not cur.chars:
+            yield s_, False; return
+        x = cur.chars[-1]
+        if isinstance(x, int): yield s_, x == c
+        else: yield from ctx.ex.fork_bool(s_, x == c)
+    def go_r(s_, cur):
+        for s2, yes in last_is(s_, cur):
+            if yes: yield from go_r(s2, StrV(cur.chars[:-1], 'str'))
+            else: yield s2, cur
+    def go_l(s_, cur):
+        for s2, yes in _first_is(ctx.ex, s_, cur, c):
+            if yes: yield from go_l(s2, StrV(cur.chars[1:], 'str'))
+            else: yield s2, cur
+    def g():
+        for s1, cur in go_r(st, s):
+            if both:
+                for s2, cur2 in go_l(s1, cur): yield s2, 'ret', s2.ref(cur2.retag('str'))
+            else:
+                yield s1, 'ret', s1.ref(cur.retag('str'))
+    return g()
+
+
+@model(r'^(?:alloc::)?str::<impl str>::replace::<char>$')
+def str_replace_char(ctx, args, st):
+    s, to = str_of(st, args[0]), str_of(st, args[2]); c = _char_arg(args[1])
+    def go(s_, i, out):
+        if i == len(s.chars):
+            yield s_, 'ret', StrV(out, 'String'); return
+        x = s.chars[i]
+        if isinstance(x, int):
+            yield from go(s_, i + 1, out + (list(to.chars) if x == c else [x]))
+        else:
+            for s2, hit in ctx.ex.fork_bool(s_, x == c):
+                yield from go(s2, i + 1, out + (list(to.chars) if hit else [x]))
+    return go(st, 0, [])
+
+
+@model(r'^(?:core::)?str::<impl str>::split_whitespace$')
+def str_split_whitespace(ctx, args, st):
+    from .iters import mk_list_iter
+    s = str_of(st, args[0])
+    def go(s_, i, cur, pieces):
+        if i == len(s.chars):
+            yield s_, pieces + ([tuple(cur)] if cur else []); return
+        x = s.chars[i]
+        for s2, w in _fork_pred(ctx.ex, s_, is_whitespace_expr(x)):
+            if w: yield from go(s2, i + 1, [], pieces + ([tuple(cur)] if cur else []))
+            else: yield from go(s2, i + 1, cur + [x], pieces)
+    def g():
+        for s2, pieces in go(st, 0, [], []):
+            yield s2, 'ret', mk_list_iter([s2.ref(StrV(p, 'str')) for p in pieces])
+    return g()
